@@ -42,8 +42,8 @@ pub fn gen_case(rng: &mut Rng, flavour: Flavour, thorough: bool) -> ModelCase {
     }
   };
   let profile = match flavour {
-    Flavour::C14 => *rng.pick(&[Profile::Basic, Profile::Nested, Profile::Nested, Profile::Unsafe, Profile::UnsafeNested, Profile::UnsafeNested]),
-    _ => *rng.pick(&[Profile::Basic, Profile::Basic, Profile::Nested, Profile::Nested, Profile::Unsafe, Profile::UnsafeNested]),
+    Flavour::C14 => *rng.pick(&[Profile::Basic, Profile::Rich, Profile::Rich, Profile::Nested, Profile::Nested, Profile::Unsafe, Profile::UnsafeNested, Profile::UnsafeNested]),
+    _ => *rng.pick(&[Profile::Basic, Profile::Basic, Profile::Rich, Profile::Nested, Profile::Nested, Profile::Unsafe, Profile::UnsafeNested]),
   };
   // swarm: one run in ten works on a large id space with bursts of adds
   // (segments of a few hundred documents), one in six mixes in long documents
@@ -250,6 +250,23 @@ pub fn probes(profile: Profile, versions: &BTreeSet<u64>) -> Vec<(String, Search
         "nested q in 3..7".into(),
         base(all.clone(), Some(json!({"Nested":{"path":"items","filter":{"I64Range":{"field":"q","min":3,"max":7}}}}))),
       ));
+    }
+    Profile::Rich => {
+      for (f, t) in [("title", "zeta"), ("title", "solo"), ("title", "two"), ("cat", "news"), ("cat", "sport"), ("cat", "b")] {
+        out.push((format!("term {}:{}", f, t), base(json!({"type":"term","field":f,"value":t}), None)));
+      }
+      for (lo, hi) in [(1i64, 3i64), (-10, 0), (4, 8), (9007199254740992, 9007199254740993)] {
+        out.push((
+          format!("m in {}..{}", lo, hi),
+          base(all.clone(), Some(json!({"I64Range":{"field":"m","min":lo,"max":hi}}))),
+        ));
+      }
+      for (lo, hi) in [(0.0f64, 3.0f64), (-1.0, 0.0), (3.5, 1e16), (0.0, 1e-6)] {
+        out.push((
+          format!("price in {}..{}", lo, hi),
+          base(all.clone(), Some(json!({"F64Range":{"field":"price","min":lo,"max":hi}}))),
+        ));
+      }
     }
     Profile::Basic => {}
   }
